@@ -237,6 +237,8 @@ def build_grid(case, base):
     cfg = case["cfg"]
     R.reset_sim()
     apply_knobs(cfg["knobs"])
+    from engines import immsim as _immsim
+    _immsim.apply_knobs({})        # (a check may run other engines in the same process: their knobs must not carry over)
     g = Grid(case["seed"], base, cfg["net"])
     for i in range(cfg["nservers"]):
         g.add_server()
